@@ -123,6 +123,33 @@ func cycleProgram(r *core.Rand, kind, L int) fileSet {
 			fmt.Fprintf(&sb, "%s %s {\n  1: optional %s f\n}\n", kw, n("U", i), wrapT(r, n("U", i+1)))
 		}
 		return single(sb.String(), fmt.Sprintf("union/exception nesting cycle of length %d", L))
+	case 10: // a struct's default contains the struct itself inside a container
+		for i := 0; i < L; i++ {
+			t, lit := "", ""
+			switch r.Intn(4) {
+			case 0:
+				t, lit = "list<"+n("S", i+1)+">", "[{}]"
+			case 1:
+				t, lit = "map<string, "+n("S", i+1)+">", "{\"a\": {}}"
+			case 2:
+				t, lit = "set<"+n("S", i+1)+">", "[{}, {}]"
+			default:
+				t, lit = "list<list<"+n("S", i+1)+">>", "[[{}]]"
+			}
+			fmt.Fprintf(&sb, "struct %s {\n  1: optional %s kids = %s\n}\n", n("S", i), t, lit)
+		}
+		return single(sb.String(), fmt.Sprintf("struct default containing its own struct inside a container, cycle of length %d", L))
+	case 11: // service inheritance cycle across an include loop
+		fs := fileSet{files: map[string]string{}, root: "idl/f1.thrift", what: fmt.Sprintf("service inheritance cycle across an include loop of length %d", L)}
+		for i := 0; i < L; i++ {
+			next := (i+1)%L + 1
+			if L == 1 {
+				fs.files["idl/f1.thrift"] = "include \"./f1.thrift\"\nservice V1 extends f1.V1 {}\n"
+				break
+			}
+			fs.files[fmt.Sprintf("idl/f%d.thrift", i+1)] = fmt.Sprintf("include \"./f%d.thrift\"\nservice V%d extends f%d.V%d {\n  void m%d()\n}\n", next, i+1, next, next, i)
+		}
+		return fs
 	case 9: // typedef cycle closed through a struct default / constant
 		fmt.Fprintf(&sb, "typedef S T\nstruct S {\n  1: optional T t = {\"t\": {}}\n}\nconst T k = {\"t\": k}\n")
 		return single(sb.String(), "typedef/struct/constant knot")
@@ -280,8 +307,8 @@ func C08(c *core.Child) {
 				fs.files[f.Path] = f.Text
 			}
 		case "cycles":
-			kind := int(i) % 10
-			L := int(i/10)%5 + 1
+			kind := int(i) % 12
+			L := int(i/12)%5 + 1
 			fs = cycleProgram(r, kind, L)
 		case "wrongkind":
 			fs = single(wrongKind[int(i)%len(wrongKind)], "wrong-kind reference / bad annotation / name clash #"+fmt.Sprint(int(i)%len(wrongKind)))
